@@ -20,6 +20,9 @@ func init() {
 type c11X struct {
 	Exit  string `json:"exit"`
 	Shape string `json:"shape"`
+	// Warm: tokens of an earlier Readline call of the same shell, after which the application changes
+	// the terminal's modes: the call under test must put back what IT found
+	Warm int `json:"warm,omitempty"`
 }
 
 func genC11(g *Gen, tier string, idx int) *wire.Scenario {
@@ -169,6 +172,11 @@ func genC11(g *Gen, tier string, idx int) *wire.Scenario {
 		sc.Script = append(sc.Script, tok("\r", "accept-line"))
 	}
 	sc.Env = env
+	if g.P(20) && len(sc.Plan.Faults) == 0 && len(sc.Plan.Disturb) == 0 {
+		warm := []wire.Token{tok("w", "self-insert"), tok("\r", "accept-line")}
+		sc.Script = append(warm, sc.Script...)
+		x.Warm = len(warm)
+	}
 	sc.X = mustJSON(x)
 	sc.Plan.Policy, sc.Plan.Class = "canonical", "S0"
 	if len(sc.Plan.Faults) > 0 {
@@ -207,9 +215,32 @@ func execC11(x *Ctx, sc *wire.Scenario) *wire.Result {
 	hooks := sim.Hooks{Setup: func(s *sim.Session, sh *readline.Shell) {
 		sh.Keymap.Register(map[string]func(){"verif-panic": func() { panic("verif: user command panics") }})
 	}}
+	var between *syscall.Termios
+	if xx.Warm > 0 {
+		hooks.Body = func(s *sim.Session, sh *readline.Shell) {
+			s.Readline(sh)
+			if t, err := x.P.Termios(); err == nil {
+				t.Lflag ^= syscall.ECHOCTL
+				t.Iflag ^= syscall.IXON
+				t.Cc[syscall.VERASE] = 8
+				if x.P.SetTermios(t) == nil {
+					between, _ = x.P.Termios()
+				}
+			}
+			s.Readline(sh)
+		}
+	}
 	out := runSession(x, sc, sc.Plan, hooks, true)
 	absorb(res, out)
 	res.Nontrivial = true
+	if xx.Warm > 0 {
+		if between == nil || len(out.Returns) == 0 {
+			res.Counters["skipped:warm_up_call"]++
+			return res
+		}
+		out.TermiosBefore = between
+		out.Returns = out.Returns[1:]
+	}
 	userPanic := out.End == "PANIC" && strings.Contains(out.Panic, "verif: user command panics")
 	if out.End == "PANIC" && !userPanic {
 		res.Counters["skipped:crash"]++
